@@ -30,6 +30,11 @@ impl<T: Dictionary> SpellCheck<T> {
 
 impl<T: Dictionary> SpellCheck<T> {
     fn cached_suggest_correct_spelling(&mut self, word: &[char]) -> Vec<CharString> {
+        #[cfg(harper_verif)]
+        crate::verif::emit(&crate::verif::Event::WordCache {
+            hit: self.word_cache.contains(word),
+        });
+
         if let Some(hit) = self.word_cache.get(word) {
             return hit.clone();
         }
